@@ -1054,7 +1054,7 @@ fn enumerate(ctx: &Ctx, st: &Stats) {
                         if ctx.quick() && (ci + prep as usize) % 2 == 1 && prep != 1 {
                             continue;
                         }
-                        let d = if h > 100 { depth - 1 } else { depth };
+                        let d = if h > 100 { depth - 1 } else if h <= 8 && ctx.quick() { depth + 1 } else { depth };
                         if nd == 0 && prep == 2 {
                             continue; // the prepared start needs a column swap target inside V and three freezes: fine, but keep the empty-tail seeds simple
                         }
@@ -1146,7 +1146,7 @@ pub fn run(ctx: &Ctx) -> i32 {
     st.sample(json!({"kind":"lockstep","K":26,"erased":[0,13],"repair":[26,27,16777215],"lead":"sparse","explanation":"the real IntermediateSymbolDecoder runs on a matrix that forwards every call to dense+sparse+model and compares"}));
     finish(ctx, &st, Finish {
         level: "model_checking",
-        rule: "(1) depth-bounded exploration of ALL admissible sequences of interface operations (set, swap_rows, swap_columns with hints, add_assign_rows from column 0 and from the dense tail, hint_column_dense_and_frozen, enable/disable index, resize) over boundary parameter alphabets (rows {0,1,h-1}; columns {0,1,63,64,65,last sparse,first dense,w-1}) from seed states (shapes x dense-tail sizes crossing the 64-bit word boundary x contents x {un-indexed, indexed, after 3 freezes + swaps}); every operation applied to a real DenseBinaryMatrix, a real SparseBinaryMatrix and a plain 2-D array with 'undefined' cells; states de-duplicated on the real objects' own Hash/Eq (exact); in every state all cells and all queries on the boundary alphabets must agree. Admissibility = the interface's preconditions read off the code (see DESIGN.md C16). (2) lock-step traces: the real solver (encode for every K' in the range, decode patterns with and without HDPC rows) runs on a BinaryMatrix implementation that forwards every call to dense + sparse + model and compares results; lead = which implementation's answers the solver sees. Both also in the debug-assertions build (X matrix operations). distinct_nontrivial = distinct states + traces.".into(),
+        rule: "(1) depth-bounded exploration (depth 3 quick / 4 thorough; 4 for the 6-row shapes in the quick tier; one less for shapes above 100 rows; per-seed depths in notes) of ALL admissible sequences of interface operations (set, swap_rows, swap_columns with hints, add_assign_rows from column 0 and from the dense tail, hint_column_dense_and_frozen, enable/disable index, resize) over boundary parameter alphabets (rows {0,1,h-1}; columns {0,1,63,64,65,last sparse,first dense,w-1}) from seed states (shapes x dense-tail sizes crossing the 64-bit word boundary x contents x {un-indexed, indexed, after 3 freezes + swaps}); every operation applied to a real DenseBinaryMatrix, a real SparseBinaryMatrix and a plain 2-D array with 'undefined' cells; states de-duplicated on the real objects' own Hash/Eq (exact); in every state all cells and all queries on the boundary alphabets must agree. Admissibility = the interface's preconditions read off the code (see DESIGN.md C16). (2) lock-step traces: the real solver (encode for every K' in the range, decode patterns with and without HDPC rows) runs on a BinaryMatrix implementation that forwards every call to dense + sparse + model and compares results; lead = which implementation's answers the solver sees. Both also in the debug-assertions build (X matrix operations). distinct_nontrivial = distinct states + traces.".into(),
         exhaustive: false,
         assumptions: vec!["cells left of start_col in the destination of a partial row addition are undefined (trait comment) and never compared".into(), "matrices start with a non-empty dense tail as in every use by the library; after the tail has been dropped by resize only get/set/swap/add/resize are exercised".into()],
         extra: Map::new(),
